@@ -39,7 +39,13 @@ Record c18_in := mkIn18 {
   i_kind : nat;               (* how the cell's item carries s: 0 string, 1 Stringer, 2 error, 3 GoStringer,
                                  4 nested Cell of the string, 5 Stringer in a cell that lives in a table *)
   i_next : list (list N);     (* the texts the item is changed to, one Update() after each *)
-  i_rmode : nat;              (* render probe: 0 none, 1 as the only body cell, 2 as the only header cell *)
+  i_rmode : nat;              (* render probe: 0 none, 1 as the only body cell, 2 as the only header cell;
+                                 one column of three cells - the item, the wide text [i_wide], and a twin item
+                                 with the same text that declares display width [i_decl] -:
+                                 3 body rows item, wide, twin; 4 item as header, body rows wide, twin;
+                                 5 body rows twin, wide, item *)
+  i_wide : list N;            (* printable ASCII, wider than everything else in the column *)
+  i_decl : nat;
   i_seg  : list (list N * list (list Z));
   i_rw   : list (Z * nat);
   i_cw   : list (list Z * nat)   (* runewidth.StringWidth of every cluster on its own *)
@@ -91,6 +97,37 @@ Definition render_expected (mode : nat) (ls : list (list N)) (lw : list nat) : l
   | _ => r_rule w ++ body ++ r_rule w                 (* body top, lines, bottom *)
   end.
 
+(* the column of three cells.  A twin with exactly one line is laid out with
+   its declared width; otherwise its lines measure as they are. *)
+Definition r_item (w : nat) (ls : list (list N)) (lw : list nat) : list N :=
+  match combine ls lw with
+  | [] => r_content w ([], 0)
+  | ps => flat_map (r_content w) ps
+  end.
+Definition r_twin (w d : nat) (ls : list (list N)) (lw : list nat) : list N :=
+  match ls with
+  | [l] => r_content w (l, d)
+  | _ => r_item w ls lw
+  end.
+Definition printable (b : N) : bool := (32 <=? b)%N && (b <=? 126)%N.
+Definition render_expected3 (mode : nat) (ls : list (list N)) (lw : list nat) (wide : list N) (d : nat) : list N :=
+  let w := Nat.max (Nat.max (list_max lw) (length wide)) d in
+  let a := r_item w ls lw in
+  let b := r_content w (wide, length wide) in
+  let c := r_twin w d ls lw in
+  match mode with
+  | 4 => r_rule w ++ a ++ r_rule w ++ b ++ c ++ r_rule w
+  | 5 => r_rule w ++ c ++ b ++ a ++ r_rule w
+  | _ => r_rule w ++ a ++ b ++ c ++ r_rule w
+  end.
+
+Definition render_probe (i : c18_in) (lw : list nat) : list N :=
+  match i_rmode i with
+  | 0 => []
+  | 1 | 2 => render_expected (i_rmode i) (spec_lines (i_s i)) lw
+  | m => render_expected3 m (spec_lines (i_s i)) lw (i_wide i) (i_decl i)
+  end.
+
 Definition last_text (i : c18_in) : list N :=
   if c18_mutable (i_kind i) then last (i_next i) (i_s i) else i_s i.
 
@@ -115,7 +152,7 @@ Definition C18_ok (i : c18_in) (ob : res c18_obs) : bool :=
       (* the text renderer lays the cell out by exactly these numbers *)
       && match i_rmode i with
          | 0 => true
-         | m => bytes_eqb (o_render o) (render_expected m (spec_lines s) (map mC (o_lmeas o)))
+         | _ => bytes_eqb (o_render o) (render_probe i (map mC (o_lmeas o))) && forallb printable (i_wide i)
          end
       && match i_kind i with
          | 5 => let lo := last (o_steps o) (o_cell o) in
@@ -208,6 +245,6 @@ Definition C18_case (c : c18_in * res c18_obs) : N :=
 Definition C18_model (c : c18_in * res c18_obs) :=
   (c18_run (fst c), c18_oracle_ok (fst c),
    match snd c with
-   | Ok o => render_expected (i_rmode (fst c)) (spec_lines (i_s (fst c))) (map mC (o_lmeas o))
+   | Ok o => render_probe (fst c) (map mC (o_lmeas o))
    | _ => []
    end).
